@@ -821,3 +821,372 @@ def t_tnet( ctx ):
         else:
             res.bad( tsrc, tp, 'DATA edges %s' % sorted( edge_syms ), 'every tag in TYPES needs an edge DATA --tag--> TYPE' )
     return res
+
+
+# ---------------------------------------------------------------------------------------- T-CMP / T-DURATION (C17)
+
+TIMES = 'history/times.py'
+
+
+@rule( 'T-CMP', props=( 'C17', ), floor=8 )
+def t_cmp( ctx ):
+    """timestamp comparison: lt/gt shift by the class _epsilon = 10**-_precision, the precision render/str use; le/ge/eq/ne derive from lt/gt"""
+    res = Result( 'T-CMP' )
+    src = ctx.src( TIMES )
+    prec = src.class_assign( 'timestamp', '_precision' )
+    eps = src.class_assign( 'timestamp', '_epsilon' )
+    p = try_fold( prec.value )
+    if not isinstance( p, int ):
+        raise AnalysisError( 'timestamp._precision does not fold to an int' )
+    if pmatch( eps.value, '10 ** -_precision' ) or try_fold( eps.value ) == 10 ** -p:
+        res.ok( src, eps, '_epsilon = 10**-_precision (_precision = %d)' % p )
+    else:
+        res.bad( src, eps, eps, 'comparison resolution must be 10**-_precision, the rendering resolution' )
+    # lt / gt primitives
+    lt = src.get( 'timestamp.__lt__' ); gt = src.get( 'timestamp.__gt__' )
+    EPS = ( 'self.__class__._epsilon', 'self._epsilon', 'timestamp._epsilon', 'type(self)._epsilon' )
+    def ret( fn ):
+        r = [ s for s in fn.body if isinstance( s, ast.Return ) ]
+        if len( r ) != 1:
+            raise AnalysisError( '%s: expected a single return' % fn.name )
+        return r[0].value
+    def lt_ok( e ):
+        for ep in EPS:
+            if pmatch( e, 'self.value + %s < rhs.value' % ep ) or pmatch( e, 'self.value < rhs.value - %s' % ep ) \
+               or pmatch( e, 'rhs.value - self.value > %s' % ep ) or pmatch( e, 'rhs.value > self.value + %s' % ep ):
+                return True
+        return False
+    def gt_ok( e ):
+        for ep in EPS:
+            if pmatch( e, 'self.value - %s > rhs.value' % ep ) or pmatch( e, 'self.value > rhs.value + %s' % ep ) \
+               or pmatch( e, 'self.value - rhs.value > %s' % ep ) or pmatch( e, 'rhs.value + %s < self.value' % ep ) \
+               or pmatch( e, 'rhs.value < self.value - %s' % ep ):
+                return True
+        return False
+    if lt_ok( ret( lt )):
+        res.ok( src, lt, 'lt: ' + norm_text( ret( lt )))
+    else:
+        res.bad( src, lt, ret( lt ), '__lt__ must be self.value + _epsilon < rhs.value (values within _epsilon render equal and must compare equal)' )
+    if gt_ok( ret( gt )):
+        res.ok( src, gt, 'gt: ' + norm_text( ret( gt )))
+    else:
+        res.bad( src, gt, ret( gt ), '__gt__ must be self.value - _epsilon > rhs.value' )
+    derived = {
+        '__le__': ( 'not self.__gt__( rhs )', 'not self > rhs' ),
+        '__ge__': ( 'not self.__lt__( rhs )', 'not self < rhs' ),
+        '__ne__': ( 'self.__lt__( rhs ) or self.__gt__( rhs )', 'self.__gt__( rhs ) or self.__lt__( rhs )', 'self < rhs or self > rhs',
+                    'not self.__eq__( rhs )' ),
+        '__eq__': ( 'not self.__ne__( rhs )', 'not ( self.__lt__( rhs ) or self.__gt__( rhs ))', 'not self.__lt__( rhs ) and not self.__gt__( rhs )' ),
+    }
+    for name, pats in derived.items():
+        fn = src.get( 'timestamp.' + name )
+        e = ret( fn )
+        if any( pmatch( e, p_ ) for p_ in pats ):
+            res.ok( src, fn, '%s = %s' % ( name, norm_text( e )))
+        else:
+            res.bad( src, fn, '%s: %s' % ( name, norm_text( e )), 'must be derived from __lt__/__gt__ so all six operators share one resolution' )
+    # eq and ne must not both be defined as the negation of each other
+    if pmatch( ret( src.get( 'timestamp.__eq__' )), 'not self.__ne__( rhs )' ) and pmatch( ret( src.get( 'timestamp.__ne__' )), 'not self.__eq__( rhs )' ):
+        res.bad( src, src.get( 'timestamp.__eq__' ), '__eq__/__ne__', 'defined only in terms of each other' )
+    # rendering uses the same precision
+    rnd = src.get( 'timestamp.render' )
+    if pfind( rnd, 'self._precision if ms is True else __' ) or pfind( rnd, 'self._precision' ):
+        res.ok( src, rnd, 'render( ms=True ) uses self._precision digits' )
+    else:
+        res.bad( src, rnd, 'render', 'default sub-second digits must come from _precision (the comparison resolution)' )
+    st = src.get( 'timestamp.__str__' )
+    if pfind( st, 'self.render( ms=True )' ):
+        res.ok( src, st, '__str__ = render( ms=True )' )
+    else:
+        res.bad( src, st, '__str__', 'string form must be the millisecond rendering' )
+    return res
+
+
+@rule( 'T-DURATION', props=( 'C17', ), floor=8 )
+def t_duration( ctx ):
+    """duration: the (unit, suffix) pairs _format emits are the pairs _parse reads (via DURSPEC_RE's named groups); units strictly descending"""
+    res = Result( 'T-DURATION' )
+    src = ctx.src( TIMES )
+    fmt = src.get( 'duration._format' ); prs = src.get( 'duration._parse' )
+    units = {}
+    for u in ( 'YR', 'WK', 'DY', 'HR', 'MN' ):
+        a = src.class_assign( 'duration', u )
+        units[u] = try_fold( a.value )
+        if not isinstance( units[u], int ):
+            raise AnalysisError( 'duration.%s does not fold' % u )
+    order = [ units[u] for u in ( 'YR', 'WK', 'DY', 'HR', 'MN' ) ]
+    if order == sorted( order, reverse=True ) and len( set( order )) == 5 and units['MN'] == 60 and units['HR'] == 3600 \
+       and units['DY'] == 86400 and units['WK'] == 7 * 86400:
+        res.ok( src, src.class_assign( 'duration', 'YR' ), 'units descending: %s' % order )
+    else:
+        res.bad( src, src.class_assign( 'duration', 'YR' ), str( units ), 'unit constants must be strictly descending multiples (w=7d, d=24h, h=60m, m=60s)' )
+    # --- _format: var = <x> // cls.UNIT ; if var: result += "{var}<suffix>".format( var=var )
+    var_unit = {}		# local var -> unit name
+    for n, m in pfind( fmt, '_v = _x // cls._U' ):
+        pass
+    for s in ast.walk( fmt ):
+        if isinstance( s, ast.Assign ) and isinstance( s.value, ast.BinOp ) and isinstance( s.value.op, ast.FloorDiv ):
+            d = dotted( s.value.right )
+            if d and d.startswith( 'cls.' ) and isinstance( s.targets[0], ast.Name ):
+                var_unit[s.targets[0].id] = d[4:]
+    emitted = {}		# suffix -> unit name / 's' / 'ms' / 'us'
+    seq = []
+    for s in ast.walk( fmt ):
+        if isinstance( s, ast.AugAssign ) and dotted( s.target ) == 'result':
+            for c in ast.walk( s.value ):
+                if isinstance( c, ast.Call ) and isinstance( c.func, ast.Attribute ) and c.func.attr == 'format' \
+                   and isinstance( c.func.value, ast.Constant ) and isinstance( c.func.value.value, str ):
+                    f = c.func.value.value
+                    mm = re.fullmatch( r'\{(\w+)\}([a-z]+)', f )
+                    if mm:
+                        kwv = { k.arg: k.value for k in c.keywords }
+                        v = kwv.get( mm.group( 1 ))
+                        emitted[mm.group( 2 )] = ( dotted( v ) if v is not None else None, v, s )
+                        seq.append(( s.lineno, mm.group( 2 )))
+    want = { 'y': 'YR', 'w': 'WK', 'd': 'DY', 'h': 'HR', 'm': 'MN' }
+    fmt_pairs = {}
+    for suf, ( var, vexpr, node ) in emitted.items():
+        if suf in want:
+            fmt_pairs[suf] = var_unit.get( var )
+        elif suf == 's':
+            fmt_pairs[suf] = 1
+        elif suf == 'ms':
+            fmt_pairs[suf] = ( 'us//1000' if vexpr is not None and pmatch( vexpr, '_m // 1000' ) else 'ms?' )
+        elif suf == 'us':
+            fmt_pairs[suf] = 'us'
+    for suf in ( 'y', 'w', 'd', 'h', 'm', 's', 'ms', 'us' ):
+        if suf not in fmt_pairs:
+            res.bad( src, fmt, '_format emits no %r component' % suf, 'a non-zero %s component of a duration would be lost on formatting' % suf )
+    # order of emission must be descending units
+    lines = [ suf for ln, suf in sorted( seq ) if suf in want ]
+    if lines != [ 'y', 'w', 'd', 'h', 'm' ]:
+        res.bad( src, fmt, 'emission order %s' % lines, 'components must be emitted in descending unit order (the parser expects y w d h m s)' )
+    # each unit's remainder chain: y_secs = seconds % cls.YR etc. -- every // cls.U is applied to the remainder of the previous, larger unit
+    rem_unit = {}
+    for s in ast.walk( fmt ):
+        if isinstance( s, ast.Assign ) and isinstance( s.value, ast.BinOp ) and isinstance( s.value.op, ast.Mod ):
+            d = dotted( s.value.right )
+            if d and d.startswith( 'cls.' ) and isinstance( s.targets[0], ast.Name ):
+                rem_unit[s.targets[0].id] = ( d[4:], dotted( s.value.left ))
+    prev = { 'WK': 'YR', 'DY': 'WK', 'HR': 'DY', 'MN': 'HR' }
+    for s in ast.walk( fmt ):
+        if isinstance( s, ast.Assign ) and isinstance( s.value, ast.BinOp ) and isinstance( s.value.op, ast.FloorDiv ):
+            d = dotted( s.value.right )
+            if d and d.startswith( 'cls.' ) and d[4:] in prev:
+                lhs = dotted( s.value.left )
+                ru = rem_unit.get( lhs )
+                if ru is None or ru[0] != prev[d[4:]]:
+                    res.bad( src, s, s, 'the %s count must be taken from the remainder modulo %s' % ( d[4:], prev[d[4:]] ))
+                else:
+                    res.ok( src, s, '%s = ( ... %% %s ) // %s' % ( s.targets[0].id, ru[0], d[4:] ))
+    # --- _parse: unit * int( group( g ) or ... )
+    parse_pairs = {}
+    for n in ast.walk( prs ):
+        if isinstance( n, ast.BinOp ) and isinstance( n.op, ast.Mult ):
+            for a, b in (( n.left, n.right ), ( n.right, n.left )):
+                d = dotted( a )
+                if d and d.startswith( 'cls.' ):
+                    groups = [ try_fold( c.args[0] ) for c in ast.walk( b ) if is_call_to( c, 'group' ) and c.args ]
+                    for gname in groups:
+                        parse_pairs[gname] = d[4:]
+                elif isinstance( try_fold( a ), int ) and not isinstance( a, ast.BinOp ):
+                    groups = [ try_fold( c.args[0] ) for c in ast.walk( b ) if is_call_to( c, 'group' ) and c.args ]
+                    for gname in groups:
+                        parse_pairs[gname] = ( 'us*%d' % try_fold( a ))
+    for n in ast.walk( prs ):
+        if is_call_to( n, 'group' ) and n.args:
+            gname = try_fold( n.args[0] )
+            parse_pairs.setdefault( gname, None )
+    # seconds group 's' contributes with unit 1 (inside the seconds sum), 'us' with unit 1 inside the microseconds sum
+    sums = {}
+    for s in ast.walk( prs ):
+        if isinstance( s, ast.Assign ) and isinstance( s.targets[0], ast.Name ) and s.targets[0].id in ( 'seconds', 'microseconds' ):
+            for c in ast.walk( s.value ):
+                if is_call_to( c, 'group' ) and c.args:
+                    sums[try_fold( c.args[0] )] = s.targets[0].id
+    td = [ n for n in ast.walk( prs ) if is_call_to( n, 'datetime.timedelta', 'timedelta' ) ]
+    if not td or { k.arg: dotted( k.value ) for k in td[0].keywords } != { 'seconds': 'seconds', 'microseconds': 'microseconds' }:
+        res.bad( src, prs, '_parse result', 'must return timedelta( seconds=seconds, microseconds=microseconds )' )
+    # --- DURSPEC_RE: for each suffix, "7<suffix>" must match with exactly the group of that suffix set
+    rx = src.class_assign( 'duration', 'DURSPEC_RE' )
+    pat = None; flags = 0
+    if isinstance( rx.value, ast.Call ):
+        for k in rx.value.keywords:
+            if k.arg == 'pattern':
+                pat = try_fold( k.value )
+            if k.arg == 'flags':
+                fl = { d for d in dotted_in( k.value ) }
+                flags = ( re.IGNORECASE if 're.IGNORECASE' in fl else 0 ) | ( re.VERBOSE if 're.VERBOSE' in fl else 0 )
+        if pat is None and rx.value.args:
+            pat = try_fold( rx.value.args[0] )
+    if not isinstance( pat, str ):
+        raise AnalysisError( 'DURSPEC_RE pattern does not fold to a string literal' )
+    try:
+        crx = re.compile( pat, flags )		# interpretation of a *constant* regular expression by the stdlib (a table lookup)
+    except re.error as exc:
+        res.bad( src, rx, 'DURSPEC_RE', 'pattern does not compile: %s' % exc )
+        return res
+    for suf in ( 'y', 'w', 'd', 'h', 'm', 's', 'ms', 'us' ):
+        if suf not in fmt_pairs:
+            continue
+        res.cells += 1
+        m = crx.match( '7' + suf )
+        node = emitted[suf][2]
+        if not m:
+            res.bad( src, node, '_format emits "7%s"' % suf, 'DURSPEC_RE does not accept the component _format emits' )
+            continue
+        setg = sorted( k for k, v in m.groupdict().items() if v is not None )
+        if setg != [ suf ]:
+            res.bad( src, node, '"7%s" sets regex groups %s' % ( suf, setg ), 'the component must be captured by group %r' % suf )
+            continue
+        fu = fmt_pairs[suf]
+        pu = parse_pairs.get( suf )
+        agree = ( suf in want and fu == want[suf] and pu == want[suf] and sums.get( suf ) == 'seconds' ) \
+             or ( suf == 's' and pu is None and sums.get( 's' ) == 'seconds' ) \
+             or ( suf == 'ms' and fu == 'us//1000' and pu == 'us*1000' and sums.get( 'ms' ) == 'microseconds' ) \
+             or ( suf == 'us' and pu is None and sums.get( 'us' ) == 'microseconds' )
+        if agree:
+            res.ok( src, node, 'suffix %r: _format unit %s <-> regex group %r <-> _parse unit %s in %s' % ( suf, fu, suf, pu or 1, sums.get( suf )))
+        else:
+            res.bad( src, node, 'suffix %r: _format divides by %s, _parse multiplies group %r by %s into %s' % ( suf, fu, suf, pu or 1, sums.get( suf )),
+                     'formatting and parsing must use the same unit for the same suffix' )
+    # fractional seconds form "{s}.{us:0>6}" <-> s_man / s_fra ("{:0<6}")
+    frac = [ c for c in ast.walk( fmt ) if isinstance( c, ast.Constant ) and isinstance( c.value, str ) and '{us:0>6}' in c.value ]
+    pfrac = [ c for c in ast.walk( prs ) if isinstance( c, ast.Constant ) and c.value == '{:0<6}' ]
+    if frac and pfrac and sums.get( 's_fra' ) == 'microseconds' and sums.get( 's_man' ) == 'seconds':
+        m = crx.match( '7.000123s' )
+        if m and m.group( 's_man' ) == '7' and m.group( 's_fra' ) == '000123':
+            res.ok( src, frac[0], 'fraction: zero-left-padded 6 digit microseconds <-> s_fra right-padded to 6 digits' )
+        else:
+            res.bad( src, frac[0], 'fraction form', 'DURSPEC_RE must capture "<s>.<fraction>s" as s_man / s_fra' )
+    else:
+        res.bad( src, fmt, 'fraction form', 'fractional seconds must be emitted as {us:0>6} and parsed with {:0<6} padding into microseconds' )
+    return res
+
+
+# ---------------------------------------------------------------------------------------- T-RECORD / X-STATES (C18)
+
+HFILES = 'history/files.py'
+
+
+@rule( 'T-RECORD', props=( 'C18', ), floor=6 )
+def t_record( ctx ):
+    """history record format: writer joins exactly (timestamp, json serial, json data) with TAB + newline; parse_record splits the same way"""
+    res = Result( 'T-RECORD' )
+    src = ctx.src( HFILES )
+    wr = src.get( 'logger.write' ); pr = src.get( 'parse_record' ); ap = src.get( 'logger._append' ); cm = src.get( 'logger.comment' )
+    joins = pfind( wr, "'\\t'.join( _t )" )
+    if len( joins ) != 1:
+        res.bad( src, wr, 'logger.write', 'a record must be exactly TAB-joined fields' )
+    else:
+        j, m = joins[0]
+        fields = m['_t'].elts if isinstance( m['_t'], ( ast.Tuple, ast.List )) else None
+        ok = fields is not None and len( fields ) == 3 and pmatch( fields[0], 'str( _ts )' ) \
+            and pmatch( fields[1], 'json.dumps( _s )' ) and pmatch( fields[2], 'json.dumps( _d )' )
+        if ok:
+            res.ok( src, j, 'write: str( timestamp ) TAB json.dumps( serial ) TAB json.dumps( data )' )
+        else:
+            res.bad( src, j, j, 'record must be ( str( timestamp ), json.dumps( serial ), json.dumps( data ))' )
+        # + '\n'
+        par = src.parent.get( j )
+        if isinstance( par, ast.BinOp ) and isinstance( par.op, ast.Add ) and try_fold( par.right ) == '\n':
+            res.ok( src, par, "record terminated by '\\n'" )
+        else:
+            res.bad( src, j, par if isinstance( par, ast.AST ) else j, "each record must be terminated by exactly one newline" )
+    # timestamp of the record is timestamp( now )
+    if pfind( wr, '_ts = timestamp( now )' ):
+        res.ok( src, wr, 'ts = timestamp( now )' )
+    else:
+        res.bad( src, wr, 'logger.write', 'the logged time must be timestamp( now )' )
+    # encodings agree
+    enc_w = pfind( ap, "_m.encode( encoding or 'ascii' )" )
+    enc_r = pfind( pr, "_l.decode( encoding or 'ascii' )" )
+    if enc_w and enc_r:
+        res.ok( src, ap, "writer encodes / reader decodes with ( encoding or 'ascii' )" )
+    else:
+        res.bad( src, ap if not enc_w else pr, 'encoding', "writer and reader must default to the same 'ascii' encoding" )
+    # parse: split( '\t', 2 ) -> ( timestamp( dt ), json.loads( sn ), js )
+    sp = pfind( pr, "( _a, _b, _c ) = _l.split( '\\t', 2 )" )
+    if not sp:
+        sp2 = pfind( pr, "_l.split( '\\t', _n )" ) + pfind( pr, "_l.split( '\\t' )" )
+        res.bad( src, sp2[0][0] if sp2 else pr, sp2[0][0] if sp2 else 'parse_record', "a record must be split at the first two TABs only (the JSON payload may contain TABs)" )
+    else:
+        n, m = sp[0]
+        a, b, c = ( m[k].id for k in ( '_a', '_b', '_c' ))
+        r = [ s for s in pr.body if isinstance( s, ast.Return ) ]
+        if r and pmatch( r[-1].value, '( _n, ( timestamp( %s ), json.loads( %s ), %s ))' % ( a, b, c )):
+            res.ok( src, r[-1], 'parse: timestamp( field 0 ), json.loads( field 1 ), raw field 2' )
+        else:
+            res.bad( src, r[-1] if r else pr, r[-1].value if r else 'return', 'parse_record must return ( n, ( timestamp( f0 ), json.loads( f1 ), f2 ))' )
+    # comments: writer prefixes '# ', reader skips blank and '#' lines and continues
+    if pfind( cm, "self._append( '# ' + _s + '\\n', encoding=encoding )" ):
+        res.ok( src, cm, "comment lines start with '# '" )
+    else:
+        res.bad( src, cm, 'logger.comment', "comment lines must be written as '# ' + text + newline" )
+    skip = [ n for n in ast.walk( pr ) if isinstance( n, ast.If ) and pmatch( n.test, "not _l or _l.startswith( '#' )" ) ]
+    if skip and any( isinstance( b, ast.Continue ) for b in skip[0].body ):
+        res.ok( src, skip[0], "reader skips blank and '#' lines" )
+    else:
+        res.bad( src, pr, 'parse_record loop', "blank lines and lines starting with '#' must be skipped, not parsed and not terminating" )
+    return res
+
+
+@rule( 'X-STATES', props=( 'C18', ), floor=7 )
+def x_states( ctx ):
+    """loader states: every state constant has a statename and statelogger entry; only declared states are assigned; truthiness = state < COMPLETE"""
+    res = Result( 'X-STATES' )
+    src = ctx.src( HFILES )
+    cd = src.get( 'loader' )
+    consts = {}
+    for s in cd.body:
+        if isinstance( s, ast.Assign ) and isinstance( s.targets[0], ast.Name ) and s.targets[0].id.isupper() \
+           and isinstance( try_fold( s.value ), int ) and s.targets[0].id not in ( 'SUPPRESS', 'FAIL', 'RAISE' ):
+            consts[s.targets[0].id] = try_fold( s.value )
+    need = ( 'INITIAL', 'SWITCHING', 'STREAMING', 'EXHAUSTED', 'AWAITING', 'COMPLETE', 'FAILED' )
+    for n in need:
+        if n not in consts:
+            raise AnalysisError( 'loader state constant %s not found' % n )
+    if len( set( consts[n] for n in need )) != len( need ):
+        res.bad( src, cd, str( { n: consts[n] for n in need } ), 'state constants must be distinct' )
+    sn = src.class_assign( 'loader', 'statename' ); sl = src.class_assign( 'loader', 'statelogger' )
+    snk = { dotted( k ) for k in sn.value.keys } if isinstance( sn.value, ast.Dict ) else set()
+    slk = { dotted( k ) for k in sl.value.keys if dotted( k ) } if isinstance( sl.value, ast.Dict ) else set()
+    for n in need:
+        if n in snk and n in slk:
+            res.ok( src, sn, 'state %s = %d has statename and statelogger entries' % ( n, consts[n] ))
+        else:
+            res.bad( src, sn if n not in snk else sl, 'state %s lacks a %s entry' % ( n, 'statename' if n not in snk else 'statelogger' ),
+                     'a transition into this state raises KeyError/TypeError inside the state setter, aborting the load' )
+    # ordering facts the load loop relies on
+    order_ok = consts['INITIAL'] < consts['SWITCHING'] < consts['STREAMING'] < consts['EXHAUSTED'] < consts['AWAITING'] \
+        < consts['COMPLETE'] < consts['FAILED']
+    if order_ok:
+        res.ok( src, cd, 'INITIAL < SWITCHING < STREAMING < EXHAUSTED < AWAITING < COMPLETE < FAILED' )
+    else:
+        res.bad( src, cd, str( { n: consts[n] for n in need } ), 'the load loop compares states by order; the declared order must be preserved' )
+    nz = src.get( 'loader.__nonzero__' )
+    r = [ s for s in nz.body if isinstance( s, ast.Return ) ]
+    if r and ( pmatch( r[0].value, 'self.state < self.COMPLETE' ) or pmatch( r[0].value, 'self._state < self.COMPLETE' )):
+        res.ok( src, nz, 'truthy iff state < COMPLETE' )
+    else:
+        res.bad( src, nz, r[0].value if r else '__nonzero__', 'a loader must evaluate True exactly while state < COMPLETE' )
+    bl = src.class_assign( 'loader', '__bool__', required=False )
+    if bl is not None and dotted( bl.value ) == '__nonzero__' or src.get( 'loader.__bool__', required=False ) is not None:
+        res.ok( src, bl or cd, '__bool__ = __nonzero__' )
+    else:
+        res.bad( src, cd, '__bool__', 'Python 3 truthiness must be __nonzero__' )
+    # assignments to self.state
+    ld = src.get( 'loader.load' )
+    n_assign = 0
+    for s in ast.walk( cd ):
+        if isinstance( s, ast.Assign ) and any( dotted( t ) == 'self.state' for t in s.targets ):
+            v = s.value.elts[0] if isinstance( s.value, ast.Tuple ) else s.value
+            d = dotted( v ) or ''
+            n_assign += 1
+            if d.startswith( 'self.' ) and d[5:] in need:
+                res.ok( src, s, 'self.state = %s' % d[5:], nontrivial=False )
+            else:
+                res.bad( src, s, s, 'only declared state constants may be assigned to the loader state' )
+    if n_assign < 5:
+        raise AnalysisError( 'loader: fewer than 5 state assignments found (%d)' % n_assign )
+    return res
